@@ -651,8 +651,9 @@ def c18_signature(rec, clauses):
         if n < len(model) and got != model[n]:
             im = (rec.get('notes') or {}).get('idmap') or {}
             cid = im.get(str(q['id'])) if q['id'] else im.get(str(next((p['id'] for p in h if p['op'] == 'start' and p['w'] == q['w']), 0)))
-            return 'C18|%s|op=%s|known=%s|ctxid=%s|got=%s' % ('+'.join(sorted(clauses)), q['op'], q['k'], 'falsy' if cid in (0, '') else 'truthy',
-                                                            got.split(':')[0] if got.startswith('v:') else got)
+            route = ('|via=' + (rec.get('notes') or {}).get('droute', 'wait')) if q['op'] == 'delete' and q['k'] == 'T' else ''
+            return 'C18|%s|op=%s%s|known=%s|ctxid=%s|got=%s' % ('+'.join(sorted(clauses)), q['op'], route, q['k'], 'falsy' if cid in (0, '') else 'truthy',
+                                                              got.split(':')[0] if got.startswith('v:') else got)
     if any(rec['obs']['live']):
         return 'C18|%s|op=delete|workers-left-alive' % '+'.join(sorted(clauses))
     return 'C18|%s|srv_alive=%s|fresh=%s' % ('+'.join(sorted(clauses)), rec['obs']['srv_alive'], [x['got'] for x in rec['obs']['fresh']])
@@ -667,7 +668,7 @@ def run_c18(tier, replay):
 
     if replay is not None:
         streams, pos, lens = record(logdir)
-        rec = R.scenario_c18(dict(id='replay', hist=replay['replay']['hist'], idmap=replay['replay'].get('idmap'), upayload=streams['uctxworker'][1],
+        rec = R.scenario_c18(dict(id='replay', hist=replay['replay']['hist'], idmap=replay['replay'].get('idmap'), droute=replay['replay'].get('droute'), upayload=streams['uctxworker'][1],
                                   upos=[p for p in pos['uctxworker'] if p[0] == 1], logdir=logdir))
         fails, _ = tlc.judge('ServerJudge', [{k: rec[k] for k in ('id', 'prop', 'scn', 'obs')}], name='replay')
         print('replayed:', json.dumps({'scn': rec['scn'], 'obs': rec['obs'], 'notes': rec['notes']}))
@@ -731,7 +732,8 @@ def run_c18(tier, replay):
     for h_, r_, _ in extra:
         for x_ in c18_features(h_, r_):
             featcount[x_] = featcount.get(x_, 0) + 1
-    tasks = [dict(id='h%d' % i, hist=h, idmap=c18_idmap(h, mr_, i, tier), upayload=streams['uctxworker'][1],
+    routes = ('wait', 'close', 'terminate')      # every client-side way RemoteContext offers to delete a context, one per history
+    tasks = [dict(id='h%d' % i, hist=h, idmap=c18_idmap(h, mr_, i, tier), droute=routes[i % 3], upayload=streams['uctxworker'][1],
                   upos=[p for p in pos['uctxworker'] if p[0] == 1], logdir=logdir)
              for i, (h, mr_, _) in enumerate(chosen)]
     recs = R.pool_map('scenario_c18', tasks, logdir, nproc=12, task_timeout=240, budget=240 if tier == 'quick' else 3000)
@@ -776,13 +778,13 @@ def run_c18(tier, replay):
         x = recmap[rid]
         sig = c18_signature(x, clauses)
         im = x['notes']['idmap']
-        what = ('%s violated by history %s: replies %s (dictionary model: %s), alive after deletes %s, server alive=%s, fresh=%s%s'
-                % (','.join(sorted(clauses)), ['%s(%s)' % (q['op'], ('ctx %r' % (im[str(q['id'])],)) if q['id'] else 'w%d' % q['w']) for q in x['scn']['hist']],
+        what = ('%s violated by history (contexts deleted through RemoteContext.%s()) %s: replies %s (dictionary model: %s), alive after deletes %s, server alive=%s, fresh=%s%s'
+                % (','.join(sorted(clauses)), x['notes'].get('droute', 'wait'), ['%s(%s)' % (q['op'], ('ctx %r' % (im[str(q['id'])],)) if q['id'] else 'w%d' % q['w']) for q in x['scn']['hist']],
                    x['obs']['rep'], x['model_rep'], x['obs']['live'], x['obs']['srv_alive'], [y['got'] for y in x['obs']['fresh']],
                    ('; server log: ' + x['notes']['server_error']) if x['notes'].get('server_error') else ''))
-        violations.append(Violation('C18', sig, what, {'kind': 'C18', 'hist': x['scn']['hist'], 'idmap': x['notes']['idmap']}))
+        violations.append(Violation('C18', sig, what, {'kind': 'C18', 'hist': x['scn']['hist'], 'idmap': x['notes']['idmap'], 'droute': x['notes'].get('droute')}))
 
-    violations = confirm(ev, 'C18', violations, lambda rp, i: dict(id=i, hist=rp['hist'], idmap=rp.get('idmap'), upayload=streams['uctxworker'][1],
+    violations = confirm(ev, 'C18', violations, lambda rp, i: dict(id=i, hist=rp['hist'], idmap=rp.get('idmap'), droute=rp.get('droute'), upayload=streams['uctxworker'][1],
                                                                   upos=[p_ for p_ in pos['uctxworker'] if p_[0] == 1], logdir=logdir),
                          'scenario_c18', c18_signature, logdir)
 
@@ -833,6 +835,7 @@ def run_c18(tier, replay):
                        'the worker handshake inside a context is one step of this model (its faults are C11\'s subject)',
                        'a worker request naming an unknown context is sent by a raw-socket client; its outcome is read at the end of the history (any byte received = a reply)',
                        'a delete of an id the client holds no live context object of (unknown, already deleted, refused duplicate) is sent raw - the API never sends one; selected histories always include one as the very first request and one right after a refused duplicate',
+                       'a delete of a context the client holds a live object of goes through RemoteContext.wait(), .close() or .terminate() - one route per history, in turn; close() returns nothing, its outcome is the object\'s is_alive() afterwards; a raising delete is a reply like any other ("raised:<Type>")',
                        'the abstract ids 1..3 of the model are concretised per history with one falsy context id (0; also the empty string in the thorough tier) and two truthy ones',
                        'real histories are sampled from TLC\'s simulation (seeded), the model is exhaustive up to length 7 (8 in the thorough tier)']
     return finish(ev, violations, T.s(), drift)
